@@ -112,7 +112,7 @@ func propDFT(t *rapid.T, x inst.FFT, test string, logn int, nsamples int) {
 // reference up to 2^10, sampled Horner evaluation above.
 func TestC10_DFT(t *testing.T) {
 	forFFTs(t, func(t *testing.T, x inst.FFT) {
-		test := "C10_DFT/" + x.Name()
+		test := tname("C10_DFT", x)
 		rapid.Check(t, func(t *rapid.T) {
 			var logn int
 			switch rapid.IntRange(0, 9).Draw(t, "sizeclass") {
